@@ -14,7 +14,9 @@ CONSTANTS
     Mode = "local"
     UpgradeSend = "drop"
     UpgraderSem = "drop"
-    UpgradeRecheck = TRUE
+    Reloads = {}
+    IOFaults = FALSE
+    UpgradeRecheck = "full"
     MaxCalls = 2
     Kinds = {"auth", "update", "remove"}
     InitFiles <- MCInit1
